@@ -16,8 +16,9 @@ from .values import Obligation
 PROVED, REFUTED, UNDECIDED, VACUOUS, COVERED, UNCOVERED, CANDIDATE = (
     "PROVED", "REFUTED", "UNDECIDED", "VACUOUS", "COVERED", "UNCOVERED", "CANDIDATE")
 
-RLIMIT = int(os.environ.get("PYVC_RLIMIT", "40000000"))
-TIMEOUT_MS = int(os.environ.get("PYVC_TIMEOUT_MS", "60000"))
+PORTFOLIO = [(7, 4000), (0, 8000), (3, 20000), (11, 45000)]
+RLIMIT = int(os.environ.get("PYVC_RLIMIT", "800000000"))
+TIMEOUT_MS = int(os.environ.get("PYVC_TIMEOUT_MS", "120000"))
 
 
 @dataclass
@@ -114,7 +115,59 @@ def relaxed_candidate(ob: Obligation, goal: Any, timeout_ms: int = 20000) -> Opt
     return None
 
 
+def split_goal(goal: Any, hyps: Optional[List[Any]] = None, depth: int = 0) -> List[Tuple[List[Any], Any]]:
+    """Decompose a goal into leaves (extra hypotheses, leaf goal): conjunctions are split, leading
+    universal quantifiers are replaced by fresh constants, implications move their antecedent into
+    the hypotheses.  Proving every leaf proves the goal (and vice versa)."""
+    hyps = list(hyps or [])
+    if depth > 12:
+        return [(hyps, goal)]
+    if z3.is_and(goal):
+        out: List[Tuple[List[Any], Any]] = []
+        for c in goal.children():
+            out += split_goal(c, hyps, depth + 1)
+        return out
+    if z3.is_quantifier(goal) and goal.is_forall():
+        vs = [M.fresh("sk_" + goal.var_name(i), goal.var_sort(i)) for i in range(goal.num_vars())]
+        body = z3.substitute_vars(goal.body(), *reversed(vs))
+        return split_goal(body, hyps, depth + 1)
+    if z3.is_implies(goal):
+        a, b = goal.children()
+        return split_goal(b, hyps + [a], depth + 1)
+    if z3.is_or(goal):
+        neg = [c.arg(0) for c in goal.children() if z3.is_not(c)]
+        pos = [c for c in goal.children() if not z3.is_not(c)]
+        if neg and len(pos) == 1:
+            return split_goal(pos[0], hyps + neg, depth + 1)
+    return [(hyps, goal)]
+
+
 def discharge(ob: Obligation, base: List[Any], use_cvc5: bool = True, second_opinion: bool = False) -> Verdict:
+    """Discharge an obligation leaf by leaf (see split_goal)."""
+    if ob.kind == "cover":
+        return discharge1(ob, base, use_cvc5, second_opinion)
+    goal = z3.simplify(ob.goal) if z3.is_expr(ob.goal) else z3.BoolVal(bool(ob.goal))
+    leaves = split_goal(goal)
+    if len(leaves) <= 1 and not leaves[0][0]:
+        return discharge1(ob, base, use_cvc5, second_opinion)
+    t0 = time.time()
+    backends = set()
+    last = None
+    for hyps, g in leaves:
+        sub = Obligation(name=ob.name, kind=ob.kind, assumptions=list(ob.assumptions) + hyps, goal=g,
+                         prop_ids=ob.prop_ids, text=ob.text, inputs=ob.inputs, meta=ob.meta)
+        v = discharge1(sub, base, use_cvc5, second_opinion)
+        last = v
+        backends.add(v.backend)
+        if v.status != PROVED:
+            v.time_s = time.time() - t0
+            return v
+    last.backend = "+".join(sorted(b for b in backends if b))
+    last.time_s = time.time() - t0
+    return last
+
+
+def discharge1(ob: Obligation, base: List[Any], use_cvc5: bool = True, second_opinion: bool = False) -> Verdict:
     t0 = time.time()
     v = Verdict(ob.name, ob.kind, UNDECIDED, prop_ids=ob.prop_ids, text=ob.text)
     if ob.kind == "cover":
@@ -131,6 +184,27 @@ def discharge(ob: Obligation, base: List[Any], use_cvc5: bool = True, second_opi
         return v
     goal = z3.simplify(ob.goal) if z3.is_expr(ob.goal) else z3.BoolVal(bool(ob.goal))
     cand_tried = False
+    # portfolio: E-matching proofs are sensitive to the solver's random choices; a proof found under
+    # any seed is a proof.  Short budgets first, the long budget only as the last resort.
+    for seed, tmo in PORTFOLIO:
+        s = _mk_solver(base, False)
+        s.set("timeout", tmo)
+        s.set("random_seed", seed)
+        s.set("smt.random_seed", seed)
+        for a in ob.assumptions:
+            s.add(a)
+        s.add(z3.Not(goal))
+        r = s.check()
+        if r == z3.unsat:
+            v.status, v.backend = PROVED, "z3-ematch"
+            v.time_s = time.time() - t0
+            return v
+        if r == z3.sat:
+            v.status, v.backend, v.model, v.solver_output = REFUTED, "z3-ematch", s.model(), "sat"
+            v.time_s = time.time() - t0
+            return v
+        if "quantifiers" in s.reason_unknown():
+            break      # saturated: more time will not help, go on to the candidate model
     for backend, mbqi in (("z3-ematch", False), ("z3-mbqi", True)):
         if mbqi and not cand_tried:
             cand_tried = True
